@@ -87,6 +87,7 @@ def runCase (c : Case) : Verdict := Id.run do
   let mut o : OState := {}
   let mut nBuilt := 0
   let backend := c.cfgGet "backend" "direct"
+  let dropfiles := c.cfgGet "dropfiles" "0" == "1"
   if backend == "sim" then v := { v with cov := addCov v.cov "sim" }
   for st in c.steps do
     let some op := parseOp st.op
@@ -97,7 +98,14 @@ def runCase (c : Case) : Verdict := Id.run do
     let (obsRes, obsResumed) := parseObs obsToks
     -- ---------- K ----------
     let (s', out) := step s op
-    let want := showRes out.res
+    -- the environment of a hook-fired trigger (F-C20-1): faithful = unchanged code, fixed = poison-tolerant drop path
+    let viaHook := dropfiles && backend == "sim" && (match op with | .triggerNoop ev => ev.ty == 2 | _ => false)
+    let showHook := fun (h : HookRes) => match h with | .abort => "abort" | .res r => showRes r
+    let wantFaithful := showHook (hookOutcome faithfulHook viaHook out.res)
+    let wantFixed := showHook (hookOutcome fixedHook viaHook out.res)
+    let want := if obsRes == wantFixed && wantFixed != wantFaithful then wantFixed else wantFaithful
+    if wantFixed != wantFaithful then
+      v := { v with variant := if obsRes == wantFixed then "fixed" else "faithful", cov := addCov v.cov "hookpanic" }
     let wantResumed := sortNat out.resumed
     if v.kOk && (want != obsRes || wantResumed != obsResumed) then
       let d := s!"K want=[{want} resumed={showNatList wantResumed}] got=[{obsRes} resumed={showNatList obsResumed}]"
@@ -128,6 +136,7 @@ def runCase (c : Case) : Verdict := Id.run do
     let trs := triggersOf spec0 ops
     let sp := specFinal spec0 o.opsRev.reverse     -- spec state *before* this op
     let mut oracleErr : Option String := none
+    let mut oPattern : String := "none"
     match op with
     | .build _ _ =>
       if obsRes != s!"built {nBuilt}" then oracleErr := some s!"build: expected built {nBuilt}, saw {obsRes}"
@@ -139,6 +148,8 @@ def runCase (c : Case) : Verdict := Id.run do
         let exp := showRes (expectedOutcome t)
         if obsRes != exp then
           oracleErr := some s!"trigger {t.tid}: specification says [{exp}], implementation [{obsRes}]"
+          -- the one explained way to fail: the process died where the triggering code should have panicked
+          if obsRes == "abort" && patHookPanicAborts viaHook (expectedOutcome t) then oPattern := "F-C20-1"
       | none => oracleErr := some "internal: no trigger record"
       if !obsResumed.isEmpty then oracleErr := some s!"a trigger call resumed other triggers {showNatList obsResumed}"
     | .wait b =>
@@ -175,7 +186,7 @@ def runCase (c : Case) : Verdict := Id.run do
       if v.oOk then
         let d := (if v.detail.isEmpty then "" else v.detail ++ " ; ") ++ "O " ++ e
         let ln := if v.line == 0 then obsLine else v.line
-        v := { v with oOk := false, detail := d, line := ln }
+        v := { v with oOk := false, detail := d, line := ln, pattern := oPattern }
     o := { o with opsRev := op :: o.opsRev }
   return v
 
